@@ -61,7 +61,8 @@ def _leaf(rng, kinds=None, light=False):
         wl = rng.choice([None, None, sp + 1, sp + 2, 5]) if s != "last" else None
         return {"t": "naive", "strategy": s, "sp": sp, "wl": wl}
     if t == "poly":
-        return {"t": "poly", "degree": rng.choice([0, 1, 1, 2]), "intercept": rng.random() < 0.7}
+        degree = rng.choice([0, 1, 1, 2])
+        return {"t": "poly", "degree": degree, "intercept": degree == 0 or rng.random() < 0.7}
     if t == "es":
         return {"t": "es", "variant": rng.choice(["ses", "ses", "trend", "hw"] if not light else ["ses"])}
     if t == "theta":
@@ -149,7 +150,10 @@ def _case(rng, fc=None):
     ups = rng.choice([[], [], [], [1], [2], [3], [0], [2, 1], [1, 0], [0, 3], [4, 2]])
     req = _needs_fh_at_fit(fc)
     fh_at = rng.choice(["fit", "both"]) if req else rng.choice(["fit", "predict", "predict", "both"])
-    upd_params = bool(ups) and rng.random() < 0.35
+    upd_params = bool(ups) and fh_at != "predict" and rng.random() < 0.45
+    if fc["t"] == "ttf" and 0 in ups and rng.random() < 0.8:
+        ups = [m for m in ups if m > 0]      # empty batches hit F-C03-3 there; keep a few
+        upd_params = upd_params and bool(ups)
     if fc["t"] == "stack":
         fh = list(range(1, rng.randint(2, 4)))     # stacking trains on a hold-out window of len(fh)
     return {"kind": "run", "fc": fc, "n": n, "t0": rng.choice([0, 0, 1, 3, 7, 25, 100, -6]),
@@ -269,7 +273,8 @@ def _build(fc):
             if tr == "detrend":
                 steps.append(("t%d" % i, Detrender(PolynomialTrendForecaster(degree=1))))
             else:
-                steps.append(("t%d" % i, Deseasonalizer(sp=4, model="multiplicative")))
+                model = "additive" if "detrend" in fc["tr"][:i] else "multiplicative"
+                steps.append(("t%d" % i, Deseasonalizer(sp=4, model=model)))
         steps.append(("f", _build(fc["final"])))
         return TransformedTargetForecaster(steps)
     if t == "multiplex":
@@ -384,6 +389,10 @@ def _check_run(case, out, shift, tag):
                 and case["fh_at"] == "predict" and out["err"] == "ValueError"
                 and "No `fh` has been set" in out["msg"]):
             return "update-before-fh-raises: %s" % out["msg"][:80]
+        if (out["stage"].startswith("update") and case["fc"]["t"] == "ttf"
+                and case["updates"][int(out["stage"][6:])] == 0 and out["err"] == "ValueError"
+                and "must contain at least some values" in out["msg"]):
+            return "ttf-empty-update-raises: %s" % out["msg"][:80]
         return "raised%s: %s at %s: %s" % (tag, out["err"], out["stage"], out["msg"][:120])
     want_c = expected_cutoffs(case, shift)
     if out["cutoffs"][0] != want_c[0]:
